@@ -107,7 +107,9 @@ func c11Runtime(r *core.Rand, k *ChainKnobs, wide bool) {
 	}
 	g.RtRoundTimeout = int64(r.Pick([]int{1, 3, 4, 2, 1}) + 1) // 1..5 blocks
 	if !wide {
-		g.RtRoundTimeout = int64(r.Range(2, 4))
+		// Short timers, so that timer-driven endings (discrepancy on timeout, failed resolution)
+		// fit into the base properties' short epochs.
+		g.RtRoundTimeout = int64(r.Range(1, 3))
 	}
 	if g.RtMaxInMessages == 0 {
 		g.RtMaxInMessages = uint32(r.Pick([]int{1, 2, 2, 1})) // 0..3 slots
